@@ -97,6 +97,14 @@ impl Write for SimSink {
         }
         if let Some((at, kind)) = self.cfg.fault_at {
             if self.accepted.len() == at {
+                // a transient Interrupted may come right before the hard failure
+                if self.cfg.eintr_per_256 > 0 && self.eintr_burst < 3 && self.ctx.draw(Stream::F, 256, "eintr-at-fault") >= 256 - self.cfg.eintr_per_256 as u64 {
+                    self.eintr_burst += 1;
+                    self.eintr_fired += 1;
+                    self.last_was_eintr = true;
+                    self.ctx.event("sink-eintr", at as u64, 1);
+                    return Err(io::Error::new(ErrorKind::Interrupted, "sim: EINTR"));
+                }
                 self.fault_fired = true;
                 self.eintr_before_fault = self.last_was_eintr;
                 self.ctx.event("sink-fault", at as u64, 0);
